@@ -1,1 +1,568 @@
-import Pfb.C10.Model
+/-
+  Pfb.C10.Props — property theorems for C10 (statement splitting is a lossless,
+  syntax-aligned partition).  Property theorems only; helper lemmas live in
+  Pfb.C10.Lemmas / Pfb.TextLemmas.
+
+  What is proved here is about the model `Pfb.C10.statements`; the model is tied
+  to `_split_code_lines` / `PythonBlock.statements` by harness/c10.py.
+  "Parses on its own to the same syntax tree" is CPython's and is decided by the
+  direct oracle, not here.
+-/
+import Pfb.C10.Lemmas
+namespace Pfb.C10
+open Pfb
+
+/-- The facts about the parser's output that the theorems need, and nothing more:
+    node starts are real positions of the text, strictly increasing, before the
+    end of the text.  Nothing is assumed about `endLine`. -/
+structure WellPlaced (t : FText) (nodes : List Node) : Prop where
+  lines_ne : t.lines ≠ []
+  col_pos : 1 ≤ t.start.col
+  valid : ∀ nd ∈ nodes, Valid t nd.start
+  sorted : nodes.Pairwise (fun a b => a.start.lt b.start = true)
+  before_end : ∀ nd ∈ nodes, nd.start.lt t.endpos = true
+
+/-- Executable form of `WellPlaced`; the driver evaluates it on every case of the
+    correspondence run, so the evidence shows the hypotheses are met by real inputs. -/
+def validB (t : FText) (p : Pos) : Bool :=
+  decide (t.start.line ≤ p.line) && decide (p.line - t.start.line < t.lines.length) &&
+  decide (t.colOff (p.line - t.start.line) ≤ p.col) &&
+  decide (p.col - t.colOff (p.line - t.start.line) ≤ (t.lines.getD (p.line - t.start.line) []).length)
+
+def wellPlacedB (t : FText) (nodes : List Node) : Bool :=
+  decide (t.lines ≠ []) && decide (1 ≤ t.start.col) && nodes.all (fun nd => validB t nd.start) &&
+  decide (nodes.Pairwise (fun a b => a.start.lt b.start = true)) &&
+  nodes.all (fun nd => nd.start.lt t.endpos)
+
+theorem wellPlacedB_sound (t : FText) (nodes : List Node) (h : wellPlacedB t nodes = true) :
+    WellPlaced t nodes := by
+  unfold wellPlacedB at h
+  simp only [Bool.and_eq_true, decide_eq_true_eq, List.all_eq_true] at h
+  obtain ⟨⟨⟨⟨h1, h2⟩, h3⟩, h4⟩, h5⟩ := h
+  refine ⟨h1, h2, ?_, h4, h5⟩
+  intro nd hnd
+  have := h3 nd hnd
+  unfold validB at this
+  simp only [Bool.and_eq_true, decide_eq_true_eq] at this
+  exact ⟨this.1.1.1, this.1.1.2, this.1.2, this.2⟩
+
+def catJoined (ps : List Piece) : Str := (ps.map (fun p => p.text.joined)).flatten
+
+/-- What one node contributes. -/
+theorem nodePieces_spec (t : FText) (i : Nat) (nd : Node) (nxt : Pos)
+    (hne : t.lines ≠ []) (hcol : 1 ≤ t.start.col) (vs : Valid t nd.start) (vn : Valid t nxt)
+    (hlt : nd.start.lt nxt = true) (hle : nxt.le t.endpos = true) :
+    ∃ ps, nodePieces t i nd nxt = .ok ps ∧
+      catJoined ps = extract t.joined (t.off nd.start) (t.off nxt) ∧
+      ps.filterMap (·.node) = [i] ∧
+      (∀ p ∈ ps, p.node = some i → p.text.start = nd.start) := by
+  unfold nodePieces
+  obtain ⟨e, he, hok⟩ := nodeEnd_spec t nd.start nxt nd.endLine hne hcol vs vn hlt hle
+  simp only [he, bind, Except.bind]
+  have hse : nd.start.le e = true := by
+    have := hok.lt; unfold Pos.lt at this; unfold Pos.le
+    simp at this ⊢; omega
+  obtain ⟨a, ha, haj, has⟩ := slice_joined hne vs hok.valid hse
+  rw [ha]
+  simp only []
+  by_cases heq : e = nxt
+  · rw [if_neg (by simpa using heq)]
+    refine ⟨_, rfl, ?_, by simp, ?_⟩
+    · simp [catJoined, haj, heq]
+    · intro p hp _; simp at hp; subst hp; exact has
+  · rw [if_pos (by simpa using heq)]
+    obtain ⟨b, hb, hbj, hbs⟩ := slice_joined hne hok.valid vn hok.le
+    rw [hb]
+    refine ⟨_, rfl, ?_, by simp, ?_⟩
+    · simp only [catJoined, List.map_cons, List.map_nil, List.flatten_cons, List.flatten_nil,
+        List.append_nil, haj, hbj]
+      exact extract_append _ _ _ _ (off_mono vs hok.valid hse) (off_mono hok.valid vn hok.le)
+    · intro p hp hn
+      simp at hp
+      rcases hp with rfl | rfl
+      · exact has
+      · simp at hn
+
+theorem splitNodes_spec (t : FText) (nodes : List Node) (i : Nat) (hnn : nodes ≠ [])
+    (wp : WellPlaced t nodes) :
+    ∃ ps, splitNodes t i nodes = .ok ps ∧
+      catJoined ps = extract t.joined (t.off (nodes.head hnn).start) t.joined.length ∧
+      ps.filterMap (·.node) = List.range' i nodes.length ∧
+      (∀ p ∈ ps, ∀ k, p.node = some k → ∃ nd, nodes[k - i]? = some nd ∧ i ≤ k ∧ p.text.start = nd.start) := by
+  induction nodes generalizing i with
+  | nil => exact absurd rfl hnn
+  | cons nd rest ih =>
+    have hne := wp.lines_ne
+    have vend := endpos_valid t hne
+    have vs := wp.valid nd (by simp)
+    cases rest with
+    | nil =>
+      unfold splitNodes
+      have hle : t.endpos.le t.endpos = true := by unfold Pos.le; simp
+      obtain ⟨ps, hps, hcat, hfm, hpos⟩ :=
+        nodePieces_spec t i nd t.endpos hne wp.col_pos vs vend (wp.before_end nd (by simp)) hle
+      refine ⟨ps, hps, ?_, by simpa using hfm, ?_⟩
+      · rw [hcat, off_endpos t hne]; rfl
+      · intro p hp k hk
+        have : k = i := by
+          have hmem : k ∈ ps.filterMap (·.node) := List.mem_filterMap.mpr ⟨p, hp, hk⟩
+          rw [hfm] at hmem; simpa using hmem
+        subst this
+        exact ⟨nd, by simp, Nat.le_refl _, hpos p hp hk⟩
+    | cons n rest' =>
+      unfold splitNodes
+      have vn := wp.valid n (by simp)
+      have hlt : nd.start.lt n.start = true := by
+        have := wp.sorted; simp [List.pairwise_cons] at this; exact this.1.1
+      have hnle : n.start.le t.endpos = true := by
+        have := wp.before_end n (by simp); unfold Pos.lt at this; unfold Pos.le
+        simp at this ⊢; omega
+      obtain ⟨ps, hps, hcat, hfm, hpos⟩ :=
+        nodePieces_spec t i nd n.start hne wp.col_pos vs vn hlt hnle
+      have wp' : WellPlaced t (n :: rest') :=
+        ⟨hne, wp.col_pos, fun x hx => wp.valid x (by simp [hx]),
+          (List.pairwise_cons.mp wp.sorted).2, fun x hx => wp.before_end x (by simp [hx])⟩
+      obtain ⟨qs, hqs, hqcat, hqfm, hqpos⟩ := ih (i + 1) (by simp) wp'
+      simp only [hps, hqs, bind, Except.bind, pure, Except.pure]
+      refine ⟨ps ++ qs, rfl, ?_, ?_, ?_⟩
+      · have : catJoined (ps ++ qs) = catJoined ps ++ catJoined qs := by simp [catJoined]
+        rw [this, hcat, hqcat]
+        simp only [List.head_cons]
+        apply extract_append
+        · exact off_mono vs vn (by
+            unfold Pos.lt at hlt; unfold Pos.le; simp at hlt ⊢; omega)
+        · exact off_le_length vn
+      · rw [List.filterMap_append, hfm, hqfm]
+        simp [List.range'_succ]
+      · intro p hp k hk
+        rcases List.mem_append.mp hp with hp | hp
+        · have : k = i := by
+            have hmem : k ∈ ps.filterMap (·.node) := List.mem_filterMap.mpr ⟨p, hp, hk⟩
+            rw [hfm] at hmem; simpa using hmem
+          subst this
+          exact ⟨nd, by simp, Nat.le_refl _, hpos p hp hk⟩
+        · obtain ⟨x, hx, hik, hst⟩ := hqpos p hp k hk
+          refine ⟨x, ?_, by omega, hst⟩
+          have : k - i = (k - (i + 1)) + 1 := by omega
+          rw [this]; simpa using hx
+
+/-- **C10_total** — on well-placed input no assertion fails and no IndexError is
+    raised: the splitter returns pieces. -/
+theorem C10_total (t : FText) (nodes : List Node) (wp : WellPlaced t nodes) :
+    ∃ ps, splitCodeLines t nodes = .ok ps := by
+  unfold splitCodeLines
+  cases nodes with
+  | nil => exact ⟨_, rfl⟩
+  | cons first rest =>
+    have hne := wp.lines_ne
+    have vf := wp.valid first (by simp)
+    have hsf : t.start.le first.start = true := by
+      have h1 := vf.hl; have h2 := vf.hc
+      unfold Pos.le; unfold FText.colOff at h2
+      simp
+      by_cases h : t.start.line < first.start.line
+      · left; exact h
+      · right
+        have : first.start.line - t.start.line = 0 := by omega
+        rw [this] at h2; simp at h2
+        exact ⟨by omega, h2⟩
+    have hlast : ((first :: rest).getLast?.getD first).start.lt t.endpos = true := by
+      apply wp.before_end
+      rw [List.getLast?_eq_getLast (by simp)]
+      simp
+    simp only [hsf, hlast, not_true_eq_false, if_false, bind, Except.bind, pure, Except.pure]
+    obtain ⟨ps, hps, _⟩ := splitNodes_spec t (first :: rest) 0 (by simp) wp
+    rw [hps]
+    by_cases hst : t.start = first.start
+    · simp [hst]
+    · obtain ⟨l, hl, _⟩ := slice_joined hne (start_valid t hne) vf hsf
+      simp [hst, hl]
+
+/-- **C10_lossless** — the concatenation of the pieces is exactly the text. -/
+theorem C10_lossless (t : FText) (nodes : List Node) (wp : WellPlaced t nodes) :
+    ∃ ps, splitCodeLines t nodes = .ok ps ∧ catJoined ps = t.joined := by
+  unfold splitCodeLines
+  cases nodes with
+  | nil => exact ⟨_, rfl, by simp [catJoined]⟩
+  | cons first rest =>
+    have hne := wp.lines_ne
+    have vf := wp.valid first (by simp)
+    have hsf : t.start.le first.start = true := by
+      have h1 := vf.hl; have h2 := vf.hc
+      unfold Pos.le; unfold FText.colOff at h2
+      simp
+      by_cases h : t.start.line < first.start.line
+      · left; exact h
+      · right
+        have : first.start.line - t.start.line = 0 := by omega
+        rw [this] at h2; simp at h2
+        exact ⟨by omega, h2⟩
+    have hlast : ((first :: rest).getLast?.getD first).start.lt t.endpos = true := by
+      apply wp.before_end
+      rw [List.getLast?_eq_getLast (by simp)]
+      simp
+    simp only [hsf, hlast, not_true_eq_false, if_false, bind, Except.bind, pure, Except.pure]
+    obtain ⟨ps, hps, hcat, _⟩ := splitNodes_spec t (first :: rest) 0 (by simp) wp
+    rw [hps]
+    simp only [List.head_cons] at hcat
+    by_cases hst : t.start = first.start
+    · refine ⟨ps, by simp [hst], ?_⟩
+      rw [hcat, ← hst, off_start]
+      exact extract_full _
+    · obtain ⟨l, hl, hlj, _⟩ := slice_joined hne (start_valid t hne) vf hsf
+      refine ⟨⟨none, l⟩ :: ps, by simp [hst, hl], ?_⟩
+      have : catJoined (⟨none, l⟩ :: ps) = l.joined ++ catJoined ps := by simp [catJoined]
+      rw [this, hlj, hcat, off_start]
+      rw [extract_append _ _ _ _ (Nat.zero_le _) (off_le_length vf)]
+      exact extract_full _
+
+/-- **C10_one_node** — every node owns exactly one piece, in order. -/
+theorem C10_one_node (t : FText) (nodes : List Node) (wp : WellPlaced t nodes) :
+    ∃ ps, splitCodeLines t nodes = .ok ps ∧ ps.filterMap (·.node) = List.range nodes.length := by
+  unfold splitCodeLines
+  cases nodes with
+  | nil => exact ⟨_, rfl, by simp⟩
+  | cons first rest =>
+    have hne := wp.lines_ne
+    have vf := wp.valid first (by simp)
+    have hsf : t.start.le first.start = true := by
+      have h1 := vf.hl; have h2 := vf.hc
+      unfold Pos.le; unfold FText.colOff at h2
+      simp
+      by_cases h : t.start.line < first.start.line
+      · left; exact h
+      · right
+        have : first.start.line - t.start.line = 0 := by omega
+        rw [this] at h2; simp at h2
+        exact ⟨by omega, h2⟩
+    have hlast : ((first :: rest).getLast?.getD first).start.lt t.endpos = true := by
+      apply wp.before_end
+      rw [List.getLast?_eq_getLast (by simp)]
+      simp
+    simp only [hsf, hlast, not_true_eq_false, if_false, bind, Except.bind, pure, Except.pure]
+    obtain ⟨ps, hps, _, hfm, _⟩ := splitNodes_spec t (first :: rest) 0 (by simp) wp
+    rw [hps]
+    by_cases hst : t.start = first.start
+    · exact ⟨ps, by simp [hst], by simp [hfm, List.range_eq_range']⟩
+    · obtain ⟨l, hl, _, _⟩ := slice_joined hne (start_valid t hne) vf hsf
+      exact ⟨⟨none, l⟩ :: ps, by simp [hst, hl], by simp [hfm, List.range_eq_range']⟩
+
+/-- **C10_positions** — every piece that holds a node starts at that node's position. -/
+theorem C10_positions (t : FText) (nodes : List Node) (wp : WellPlaced t nodes) :
+    ∃ ps, splitCodeLines t nodes = .ok ps ∧
+      ∀ p ∈ ps, ∀ k, p.node = some k → ∃ nd, nodes[k]? = some nd ∧ p.text.start = nd.start := by
+  unfold splitCodeLines
+  cases nodes with
+  | nil => exact ⟨_, rfl, by intro p hp k hk; simp at hp; subst hp; simp at hk⟩
+  | cons first rest =>
+    have hne := wp.lines_ne
+    have vf := wp.valid first (by simp)
+    have hsf : t.start.le first.start = true := by
+      have h1 := vf.hl; have h2 := vf.hc
+      unfold Pos.le; unfold FText.colOff at h2
+      simp
+      by_cases h : t.start.line < first.start.line
+      · left; exact h
+      · right
+        have : first.start.line - t.start.line = 0 := by omega
+        rw [this] at h2; simp at h2
+        exact ⟨by omega, h2⟩
+    have hlast : ((first :: rest).getLast?.getD first).start.lt t.endpos = true := by
+      apply wp.before_end
+      rw [List.getLast?_eq_getLast (by simp)]
+      simp
+    simp only [hsf, hlast, not_true_eq_false, if_false, bind, Except.bind, pure, Except.pure]
+    obtain ⟨ps, hps, _, _, hpos⟩ := splitNodes_spec t (first :: rest) 0 (by simp) wp
+    rw [hps]
+    have hpos' : ∀ p ∈ ps, ∀ k, p.node = some k →
+        ∃ nd, (first :: rest)[k]? = some nd ∧ p.text.start = nd.start := by
+      intro p hp k hk
+      obtain ⟨nd, h1, _, h3⟩ := hpos p hp k hk
+      exact ⟨nd, by simpa using h1, h3⟩
+    by_cases hst : t.start = first.start
+    · exact ⟨ps, by simp [hst], hpos'⟩
+    · obtain ⟨l, hl, _, _⟩ := slice_joined hne (start_valid t hne) vf hsf
+      refine ⟨⟨none, l⟩ :: ps, by simp [hst, hl], ?_⟩
+      intro p hp k hk
+      simp at hp
+      rcases hp with rfl | hp
+      · simp at hk
+      · exact hpos' p hp k hk
+
+/-! ### Non-statement pieces hold only comment / blank lines -/
+
+theorem isCB_nil : isCommentOrBlank [] = true := by simp [isCommentOrBlank]
+
+theorem nodePieces_noncode (t : FText) (i : Nat) (nd : Node) (nxt : Pos)
+    (hne : t.lines ≠ []) (hcol : 1 ≤ t.start.col) (vs : Valid t nd.start) (vn : Valid t nxt)
+    (hlt : nd.start.lt nxt = true) (hle : nxt.le t.endpos = true) :
+    ∃ ps, nodePieces t i nd nxt = .ok ps ∧
+      ∀ p ∈ ps, p.node = none → ∀ l ∈ p.text.lines, isCommentOrBlank l = true := by
+  unfold nodePieces
+  obtain ⟨e, he, hok⟩ := nodeEnd_spec t nd.start nxt nd.endLine hne hcol vs vn hlt hle
+  simp only [he, bind, Except.bind]
+  have hse : nd.start.le e = true := by
+    have := hok.lt; unfold Pos.lt at this; unfold Pos.le
+    simp at this ⊢; omega
+  obtain ⟨a, ha, _, _⟩ := slice_joined hne vs hok.valid hse
+  rw [ha]
+  simp only []
+  by_cases heq : e = nxt
+  · rw [if_neg (by simpa using heq)]
+    exact ⟨_, rfl, by intro p hp hn; simp at hp; subst hp; simp at hn⟩
+  · rw [if_pos (by simpa using heq)]
+    obtain ⟨hcol1, hgt, hall, hlast⟩ := hok.gap heq
+    have hsl := vs.hl
+    have hel : t.start.line < e.line := by omega
+    have hnz : e.line - t.start.line ≠ 0 := by omega
+    obtain ⟨b, hb, hbl⟩ := slice_lines hok.valid vn hok.le hnz
+    rw [hb]
+    refine ⟨_, rfl, ?_⟩
+    intro p hp hn l hl
+    simp at hp
+    rcases hp with rfl | rfl
+    · simp at hn
+    · simp only at hl
+      rw [hbl] at hl
+      have hi12 : e.line - t.start.line ≤ nxt.line - t.start.line := by
+        have := hok.le; unfold Pos.le at this; simp at this; have := vn.hl; omega
+      have hc1 : e.col - t.colOff (e.line - t.start.line) = 0 := by
+        simp [FText.colOff, hnz, hcol1]
+      rw [hc1] at hl
+      unfold sliceLines at hl
+      have hlen : (t.lines.take (nxt.line - t.start.line)).length = nxt.line - t.start.line := by
+        have := vn.hi; simp; omega
+      rw [List.drop_append_of_le_length (by omega)] at hl
+      -- l is either one of the whole lines in [e.line, nxt.line) or the clipped last line
+      have hmem : l ∈ (t.lines.take (nxt.line - t.start.line)).drop (e.line - t.start.line) ++
+          [(t.lines.getD (nxt.line - t.start.line) []).take
+            (nxt.col - t.colOff (nxt.line - t.start.line))] := by
+        generalize hG : (t.lines.take (nxt.line - t.start.line)).drop (e.line - t.start.line) ++
+          [(t.lines.getD (nxt.line - t.start.line) []).take
+            (nxt.col - t.colOff (nxt.line - t.start.line))] = G at hl
+        cases G with
+        | nil => simp at hl
+        | cons f r => simpa using hl
+      rcases List.mem_append.mp hmem with hm | hm
+      · obtain ⟨k, hk, rfl⟩ := List.mem_iff_getElem.mp hm
+        simp only [List.getElem_drop, List.getElem_take]
+        simp at hk
+        have := hall (e.line + k) (by omega) (by omega)
+        unfold lineOf at this
+        have hidx : e.line + k - t.start.line = e.line - t.start.line + k := by omega
+        rw [hidx] at this
+        have hlt2 : e.line - t.start.line + k < t.lines.length := by have := vn.hi; omega
+        simpa [List.getD, List.getElem?_eq_getElem hlt2] using this
+      · simp at hm
+        subst hm
+        rcases hlast with hc | ⟨hend, hcb⟩
+        · have : nxt.col - t.colOff (nxt.line - t.start.line) = 0 := by
+            simp [FText.colOff, hc]
+            split <;> omega
+          rw [this]; simp [isCB_nil]
+        · have hv := endpos_valid t hne
+          have hpos : 0 < t.lines.length := List.length_pos_iff.mpr hne
+          have hi : t.endpos.line - t.start.line = t.lines.length - 1 := by
+            simp [FText.endpos]; omega
+          have hc2 : nxt.col - t.colOff (nxt.line - t.start.line)
+              = (t.lines.getD (nxt.line - t.start.line) []).length := by
+            rw [hend, hi]
+            have hlast' : t.lines.getD (t.lines.length - 1) [] = t.lines.getLast?.getD [] := by
+              rw [List.getLast?_eq_getElem?]; simp [List.getD]
+            rw [hlast']
+            simp only [FText.endpos, FText.colOff]
+            by_cases h1 : t.lines.length = 1
+            · simp [h1]
+            · rw [if_neg h1, if_neg (by omega)]; omega
+          rw [hc2]
+          simp only [List.getD] at hcb ⊢
+          unfold lineOf at hcb
+          simpa [List.getD] using hcb
+
+theorem splitNodes_noncode (t : FText) (nodes : List Node) (i : Nat) (wp : WellPlaced t nodes) :
+    ∃ ps, splitNodes t i nodes = .ok ps ∧
+      ∀ p ∈ ps, p.node = none → ∀ l ∈ p.text.lines, isCommentOrBlank l = true := by
+  induction nodes generalizing i with
+  | nil => exact ⟨[], rfl, by simp⟩
+  | cons nd rest ih =>
+    have hne := wp.lines_ne
+    have vend := endpos_valid t hne
+    have vs := wp.valid nd (by simp)
+    cases rest with
+    | nil =>
+      unfold splitNodes
+      have hle : t.endpos.le t.endpos = true := by unfold Pos.le; simp
+      exact nodePieces_noncode t i nd t.endpos hne wp.col_pos vs vend (wp.before_end nd (by simp)) hle
+    | cons n rest' =>
+      unfold splitNodes
+      have vn := wp.valid n (by simp)
+      have hlt : nd.start.lt n.start = true := by
+        have := wp.sorted; simp [List.pairwise_cons] at this; exact this.1.1
+      have hnle : n.start.le t.endpos = true := by
+        have := wp.before_end n (by simp); unfold Pos.lt at this; unfold Pos.le
+        simp at this ⊢; omega
+      obtain ⟨ps, hps, hp⟩ := nodePieces_noncode t i nd n.start hne wp.col_pos vs vn hlt hnle
+      have wp' : WellPlaced t (n :: rest') :=
+        ⟨hne, wp.col_pos, fun x hx => wp.valid x (by simp [hx]),
+          (List.pairwise_cons.mp wp.sorted).2, fun x hx => wp.before_end x (by simp [hx])⟩
+      obtain ⟨qs, hqs, hq⟩ := ih (i + 1) wp'
+      simp only [hps, hqs, bind, Except.bind, pure, Except.pure]
+      refine ⟨ps ++ qs, rfl, ?_⟩
+      intro p hpm hn
+      rcases List.mem_append.mp hpm with h | h
+      · exact hp p h hn
+      · exact hq p h hn
+
+/-- **C10_noncode** — every piece without a node consists of comment/blank lines
+    only.  For the pieces between and after statements this is proved outright;
+    for the leading piece (text before the first statement) it is the parser fact
+    `hlead`. -/
+theorem C10_noncode (t : FText) (nodes : List Node) (wp : WellPlaced t nodes) (hnn : nodes ≠ [])
+    (hlead : ∀ l, t.slice t.start (nodes.head hnn).start = .ok l →
+        ∀ x ∈ l.lines, isCommentOrBlank x = true) :
+    ∃ ps, splitCodeLines t nodes = .ok ps ∧
+      ∀ p ∈ ps, p.node = none → ∀ l ∈ p.text.lines, isCommentOrBlank l = true := by
+  unfold splitCodeLines
+  cases nodes with
+  | nil => exact absurd rfl hnn
+  | cons first rest =>
+    have hne := wp.lines_ne
+    have vf := wp.valid first (by simp)
+    have hsf : t.start.le first.start = true := by
+      have h1 := vf.hl; have h2 := vf.hc
+      unfold Pos.le; unfold FText.colOff at h2
+      simp
+      by_cases h : t.start.line < first.start.line
+      · left; exact h
+      · right
+        have : first.start.line - t.start.line = 0 := by omega
+        rw [this] at h2; simp at h2
+        exact ⟨by omega, h2⟩
+    have hlast : ((first :: rest).getLast?.getD first).start.lt t.endpos = true := by
+      apply wp.before_end
+      rw [List.getLast?_eq_getLast (by simp)]
+      simp
+    simp only [hsf, hlast, not_true_eq_false, if_false, bind, Except.bind, pure, Except.pure]
+    obtain ⟨ps, hps, hp⟩ := splitNodes_noncode t (first :: rest) 0 wp
+    rw [hps]
+    by_cases hst : t.start = first.start
+    · exact ⟨ps, by simp [hst], hp⟩
+    · obtain ⟨l, hl, _, _⟩ := slice_joined hne (start_valid t hne) vf hsf
+      refine ⟨⟨none, l⟩ :: ps, by simp [hst, hl], ?_⟩
+      intro p hpm hn
+      simp at hpm
+      rcases hpm with rfl | h
+      · exact hlead l (by simpa using hl)
+      · exact hp p h hn
+
+/-! ### The leading-newline normalisation of `.statements` -/
+
+theorem peel_joined (start : Pos) (node : Option Nat) (lines : List Str) :
+    catJoined (peel start node lines) = joinNl lines := by
+  fun_induction peel start node lines with
+  | case1 node => simp [catJoined, FText.joined]
+  | case2 node l => simp [catJoined, FText.joined]
+  | case3 node l l' ls h ih =>
+    have : catJoined (⟨none, ⟨[[], []], start⟩⟩ :: peel start none (l' :: ls))
+        = ['\n'] ++ catJoined (peel start none (l' :: ls)) := by
+      simp [catJoined, FText.joined, joinNl]
+    rw [this, ih, h.1]
+    simp [joinNl]
+  | case4 node l l' ls h =>
+    simp [catJoined, FText.joined]
+
+/-- **normalize_lossless** — peeling leading newlines keeps the concatenation. -/
+theorem normalize_lossless (ps : List Piece) : catJoined (normalize ps) = catJoined ps := by
+  induction ps with
+  | nil => simp [normalize, catJoined]
+  | cons p ps ih =>
+    have h1 : normalize (p :: ps) = peel p.text.start p.node p.text.lines ++ normalize ps := by
+      simp [normalize]
+    have h2 : ∀ a b : List Piece, catJoined (a ++ b) = catJoined a ++ catJoined b := by
+      intro a b; simp [catJoined]
+    rw [h1, h2, ih, peel_joined]
+    simp [catJoined, FText.joined]
+
+/-- **normalize_node_untouched** — a piece whose text does not begin with a
+    newline (every statement piece: it begins with the statement's first
+    character) passes through `.statements` unchanged, keeping its node. -/
+theorem normalize_node_untouched (p : Piece)
+    (h : ∀ l' ls, p.text.lines ≠ [] :: l' :: ls) (hne : p.text.lines ≠ []) :
+    peel p.text.start p.node p.text.lines = [p] := by
+  cases p with
+  | mk node text =>
+    cases text with
+    | mk lines start =>
+      simp only at h hne ⊢
+      match lines, h, hne with
+      | [l], _, _ => simp [peel]
+      | l :: l' :: ls, h, _ =>
+        rw [peel, if_neg]
+        intro ⟨h1, _⟩
+        exact h l' ls (by rw [h1])
+
+/-- **C10_statements_lossless** — `PythonBlock(text).statements`: concatenation
+    of all statement texts equals the input text. -/
+theorem C10_statements_lossless (t : FText) (nodes : List Node) (wp : WellPlaced t nodes) :
+    ∃ ps, statements t nodes = .ok ps ∧ catJoined ps = t.joined := by
+  obtain ⟨ps, hps, hcat⟩ := C10_lossless t nodes wp
+  refine ⟨normalize ps, ?_, ?_⟩
+  · simp [statements, hps, bind, Except.bind, pure, Except.pure]
+  · rw [normalize_lossless, hcat]
+
+/-! ### Non-vacuity: a concrete text meets the hypotheses and is split as expected -/
+
+def exText : FText := FText.ofStr "# c\nx = '''a\n# b'''  # t\n\n# d\ny = 2".toList ⟨3, 5⟩
+def exNodes : List Node := [⟨⟨4, 1⟩, 5⟩, ⟨⟨8, 1⟩, 8⟩]
+
+example : wellPlacedB exText exNodes = true := by decide
+example : WellPlaced exText exNodes := wellPlacedB_sound _ _ (by decide)
+example : (statements exText exNodes).toOption.map (fun ps => ps.map fun p => (p.node, String.ofList p.text.joined, p.text.start.line, p.text.start.col))
+    = some [(none, "# c\n", 3, 5), (some 0, "x = '''a\n# b'''  # t\n", 4, 1), (none, "\n", 6, 1),
+            (none, "# d\n", 6, 1), (some 1, "y = 2", 8, 1)] := by decide
+
+end Pfb.C10
+
+namespace Pfb
+
+/-- **slice_append** — adjacent slices concatenate to the enclosing slice. -/
+theorem slice_append {t : FText} {a b c : Pos} (hne : t.lines ≠ [])
+    (va : Valid t a) (vb : Valid t b) (vc : Valid t c)
+    (hab : a.le b = true) (hbc : b.le c = true) :
+    ∃ r1 r2 r3, t.slice a b = .ok r1 ∧ t.slice b c = .ok r2 ∧ t.slice a c = .ok r3 ∧
+      r1.joined ++ r2.joined = r3.joined := by
+  have hac : a.le c = true := by
+    unfold Pos.le at *; simp at *; omega
+  obtain ⟨r1, h1, j1, _⟩ := slice_joined hne va vb hab
+  obtain ⟨r2, h2, j2, _⟩ := slice_joined hne vb vc hbc
+  obtain ⟨r3, h3, j3, _⟩ := slice_joined hne va vc hac
+  refine ⟨r1, r2, r3, h1, h2, h3, ?_⟩
+  rw [j1, j2, j3]
+  exact extract_append _ _ _ _ (off_mono va vb hab) (off_mono vb vc hbc)
+
+/-- **Pos.add_true** — `text.startpos + (lineno-1, col)` (`FilePos.__add__`,
+    column reset on line movement) is the true position of the character at
+    0-based (line, col) of the text, whatever the text's own start position. -/
+theorem Pos.add_true (t : FText) (dl dc : Nat) (hl : dl < t.lines.length)
+    (hc : dc ≤ (t.lines.getD dl []).length) :
+    Valid t (t.start.add dl dc) ∧ t.off (t.start.add dl dc) = lcOff t.lines dl dc := by
+  unfold Pos.add
+  by_cases h0 : dl = 0
+  · subst h0
+    simp only [if_true]
+    refine ⟨⟨Nat.le_refl _, by simpa using hl, ?_, ?_⟩, ?_⟩
+    · simp [FText.colOff]
+    · simpa [FText.colOff] using hc
+    · simp [FText.off, FText.colOff]
+  · simp only [h0, if_false]
+    have hi : t.start.line + dl - t.start.line = dl := by omega
+    refine ⟨⟨by simp, by simpa [hi] using hl, ?_, ?_⟩, ?_⟩
+    · simp [FText.colOff, hi, h0]
+    · simp only [FText.colOff, hi, h0, if_false]
+      have : 1 + dc - 1 = dc := by omega
+      rw [this]; exact hc
+    · simp only [FText.off, FText.colOff, hi, h0, if_false]
+      have : 1 + dc - 1 = dc := by omega
+      rw [this]
+
+end Pfb
